@@ -30,6 +30,10 @@ Cfg0C08bq == {<<[C("basic", 0, 1, 1, TRUE, TRUE, FALSE) EXCEPT !.forget = 2], C(
 BudC08bq  == B(2, 1, 1, 1, 0, 0, 0, 100)
 Cfg0C09q  == {<<C("classic", 1, 1, 1, FALSE, TRUE, FALSE), [C("basic", 0, 0, 1, TRUE, TRUE, FALSE) EXCEPT !.forget = 2]>>}
 BudC09q   == B(3, 0, 1, 0, 0, 0, 1, 100)
+\* C08 readiness: wipe x CheckReady x ring-health readiness (one lifecycler observing, one ACTIVE bystander)
+Cfg0C08r  == {<<C("classic", 0, 1, 1, FALSE, FALSE, TRUE), C("classic", 0, 0, 1, FALSE, FALSE, TRUE)>>,
+              <<C("classic", 0, 1, 1, FALSE, FALSE, FALSE), C("classic", 0, 0, 1, FALSE, TRUE, TRUE)>>}
+BudC08r   == B(2, 0, 0, 2, 1, 0, 0, 100)
 \* C09 liveness: the environment is quiet after time 1
 Cfg0Live  == {<<C("classic", 1, 1, 1, FALSE, TRUE, FALSE), [C("basic", 0, 1, 1, FALSE, TRUE, FALSE) EXCEPT !.forget = 3]>>}
 BudLiveC  == B(3, 0, 0, 0, 0, 0, 1, 1)
